@@ -205,6 +205,16 @@ func runConcCase(c Case, st *Stats, prop string) error {
 	if or > 0 {
 		classes = append(classes, "overlapping-reader")
 	}
+	failed := 0
+	for _, a := range res.Recs {
+		if a.Fail != "" {
+			failed++
+		}
+	}
+	st.Class("failed-write-transactions", failed)
+	if failed > 0 {
+		classes = append(classes, "case-with-failed-write-transaction")
+	}
 	st.Class("overlapping-pairs", ow+or)
 	st.Eval(c.JSON(), nontrivial, classes...)
 	return nil
